@@ -885,10 +885,16 @@ class Engine:
             if key == text:
                 self.loop_specs_used.add(key)
                 return self.loops[key]
+        fb = getattr(self, 'loop_fallback', None)
+        if fb is None:
+            fb = self.loop_fallback = {}
+        if text in fb:                      # the same (edited) loop reached again on another path
+            return self.loops[fb[text]]
         if ordinal <= len(keys):
             key = keys[ordinal - 1]
             if isinstance(key, str) and key.split(' ')[0] == text.split(' ')[0] and key not in self.loop_specs_used:
                 self.loop_specs_used.add(key)
+                fb[text] = key
                 return self.loops[key]
         return None
 
